@@ -277,14 +277,17 @@ def validDef (cfg : IndexConfig) : Res Unit :=
     else if cfg.expiry > 0 && cfg.key.length > 1 then .error .err
     else .ok ()
 
+/-- an index of that name with an equal definition exists -/
+def SColl.hasSame (c : SColl) (name : String) (cfg : IndexConfig) : Bool :=
+  match c.defs.lookup name with
+  | some k => cfg.equal k
+  | none => false
+
 def SColl.createIndex (sch : SchemaEval) (c : SColl) (name : String) (cfg : IndexConfig) : Res (SColl × String) :=
   match (if name == "" then cfg.name else .ok name) with
   | .error e => .error e
   | .ok name =>
-    let same : Bool := match c.defs.lookup name with
-      | some k => cfg.equal k
-      | none => false
-    if same then .ok (c, name)
+    if c.hasSame name cfg then .ok (c, name)
     else if c.defs.any (fun (_, k) => V.cmp (.doc cfg.key) (.doc k.key) == .eq) then .error .err
     else if c.defs.any (·.1 == name) then .error .err
     else
